@@ -3,7 +3,7 @@
     source with arbitrary short reads.  Only statements live here. *)
 From Coq Require Import List ZArith Bool.
 From V Require Import Gen.Params Lib.Hex Wire.Varint H3Stream.Model H3Stream.Proofs H3Stream.ProofsStream
-  H3Stream.ProofsExact H3Stream.ProofsBody H3Stream.ProofsTrunc H3Stream.ProofsSettings.
+  H3Stream.ProofsExact H3Stream.ProofsBody H3Stream.ProofsTrunc H3Stream.ProofsSettings H3Stream.ProofsSched.
 Import ListNotations.
 Open Scope Z_scope.
 
@@ -241,6 +241,20 @@ Example C18_example_truncated :
    out = [] /\ e = Some EEOF /\ x_closed x' = None).
 Proof. vm_compute. auto 10. Qed.
 Print Assumptions C18_example_truncated.
+
+(** ParseNext does not depend on how the quic stream chunks the bytes into Reads: for EVERY byte
+    string (valid or not: DATA, HEADERS, SETTINGS, GOAWAY, skipped unknown / push / GREASE frames
+    of any length, reserved types, truncation), every terminal error and ANY two short-read
+    schedules the result (frame or error), the connection-close decision and the bytes left in
+    the stream are the same.  (The payload of a skipped frame that straddles Reads cannot put the
+    parser out of step -- seeded change C18-f.) *)
+Theorem C18_parse_next_chunking_independent :
+  forall (fuel : nat) (data sc1 sc2 : list Z) (fin : err) (fw : bool) (cl : option Z),
+  let r1 := parse_next fuel (mkSrc data sc1 fin fw) cl in
+  let r2 := parse_next fuel (mkSrc data sc2 fin fw) cl in
+  fst (fst r1) = fst (fst r2) /\ snd r1 = snd r2 /\ s_data (snd (fst r1)) = s_data (snd (fst r2)).
+Proof. exact parse_next_chunking_independent. Qed.
+Print Assumptions C18_parse_next_chunking_independent.
 
 (** SETTINGS and GOAWAY through ParseNext, with their values: an accepted SETTINGS frame yields
     exactly MAX_FIELD_SECTION_SIZE (or -1), the two booleans, and the unknown settings in order;
